@@ -1,0 +1,18 @@
+//go:build verif
+// +build verif
+
+// Package verifhooks exposes internal packages to the external verification harness.
+// It is compiled only with the build tag "verif" and adds no behaviour.
+package verifhooks
+
+import (
+	"github.com/lorenzodonini/ocpp-go/internal/callbackqueue"
+)
+
+// CallbackQueue re-exports the internal callback queue used by the OCPP 1.6 / 2.0.1 endpoints.
+type CallbackQueue = callbackqueue.CallbackQueue
+
+// NewCallbackQueue returns an empty callback queue.
+func NewCallbackQueue() CallbackQueue {
+	return callbackqueue.New()
+}
